@@ -1668,6 +1668,12 @@ class Interp:
             elem = (lv, self.lib.term_getitem(self, itt.args[0], lv, env, st))
         elif f_it == "zip":
             elem = tuple(self.lib.term_getitem(self, a, lv, env, st) for a in itt.args)
+            # equally long operands walked in step: the index runs over the leading axis of the first one
+            a0 = itt.args[0]
+            if fname(a0) == "item" and isinstance(a0.args[1], sp.Symbol) and str(a0.args[1]).startswith("~i:"):
+                itt = op("range", op("item", op("shape", a0.args[0]), sp.Integer(1)))     # len(B[i]) == B.shape[1]
+            else:
+                itt = op("range", op("len", a0))
         elif f_it == "dict_items":
             elem = (op("key", itt.args[0], lv), op("val", itt.args[0], lv))
         else:
